@@ -13,7 +13,6 @@ runs the script against real canaries.
 Core-only; the driver does not import the generated graph (the theorems are checked by
 `lake build ZygoVerif.Props.C08`, not by the driver).
 -/
-import ZygoVerif.Spec.Prims
 import ZygoVerif.Driver.Proto
 namespace ZygoVerif.Driver.Sandbox
 open ZygoVerif.Proto
